@@ -1,5 +1,5 @@
-(* C14/History.v — after any history of Owner.disable / Owner.enable operations inside hist_dom, the
-   in-memory table Commands._disabled answers exactly like the documented semantics. *)
+(* C14/History.v — after any history of Owner.disable / Owner.enable operations the in-memory table
+   Commands._disabled answers exactly like the documented semantics. *)
 From Coq Require Import List NArith ZArith Bool Arith Lia.
 Import ListNotations.
 Require Import Base.Wire Base.PyStr C14.Model C14.Lemmas C14.Dispatch.
@@ -23,17 +23,6 @@ Proof.
     + destruct (seq_eqb k' k0) eqn:E0.
       * apply seq_eqb_eq in E0. subst k0. rewrite seq_eqb_sym, E. reflexivity.
       * exact IH.
-Qed.
-
-Lemma get_del {A} k' k (d : list (str * A)) :
-  dict_get k' (dict_del k d) = if seq_eqb k' k then None else dict_get k' d.
-Proof.
-  unfold dict_del. induction d as [|[k0 v0] d IH]; simpl.
-  - destruct (seq_eqb k' k); reflexivity.
-  - destruct (seq_eqb k k0) eqn:E; simpl.
-    + apply seq_eqb_eq in E. subst k0. rewrite IH. destruct (seq_eqb k' k); reflexivity.
-    + rewrite IH. destruct (seq_eqb k' k0) eqn:E0; [|reflexivity].
-      apply seq_eqb_eq in E0. subst k0. rewrite seq_eqb_sym, E. reflexivity.
 Qed.
 
 Lemma existsb_ext' {A} (f g : A -> bool) l : (forall x, f x = g x) -> existsb f l = existsb g l.
@@ -85,41 +74,32 @@ Proof.
     apply seq_eqb_eq in Ea. subst a. rewrite (seq_eqb_sym q q'), E1. simpl. rewrite andb_true_r. reflexivity.
 Qed.
 
-Lemma anyP_false k P : anyP k P = false -> forall q, memP q k P = false.
+Lemma set_add_mem k' k l : existsb (seq_eqb k') (set_add k l) = seq_eqb k' k || existsb (seq_eqb k') l.
 Proof.
-  unfold anyP, memP. induction P as [|[a b] P IH]; simpl; intros H q; [reflexivity|].
-  apply orb_false_iff in H as [H1 H2]. rewrite H1, andb_false_r. simpl. apply IH. exact H2.
+  unfold set_add. destruct (existsb (seq_eqb k) l) eqn:E.
+  - destruct (seq_eqb k' k) eqn:Ek; [|reflexivity]. apply seq_eqb_eq in Ek. subst k'. rewrite E. reflexivity.
+  - rewrite existsb_app. simpl. rewrite orb_false_r. apply orb_comm.
 Qed.
+
+Lemma per_has_set q' k' k set per :
+  per_has q' k' (dict_set k set per) = if seq_eqb k' k then existsb (seq_eqb q') set else per_has q' k' per.
+Proof. unfold per_has. rewrite get_set. destruct (seq_eqb k' k); reflexivity. Qed.
+
+Lemma memP_cons q k q0 k0 P : memP q k ((q0, k0) :: P) = (seq_eqb q q0 && seq_eqb k k0) || memP q k P.
+Proof. reflexivity. Qed.
+Lemma memG_cons k k0 G : memG k (k0 :: G) = seq_eqb k k0 || memG k G.
+Proof. reflexivity. Qed.
 
 Section H.
 Variable has_cmd : str -> str -> bool.
 
 (* the in-memory table represents the documented state *)
 Definition Rel (d : dis) (S : sstate) : Prop :=
-  forall k, match dict_get k d with
-            | Some None => memG k (s_G S) = true /\ forall q, memP q k (s_P S) = false
-            | Some (Some set) => memG k (s_G S) = false /\ forall q, existsb (seq_eqb q) set = memP q k (s_P S)
-            | None => memG k (s_G S) = false /\ forall q, memP q k (s_P S) = false
-            end.
+  (forall k, memG k (d_all d) = memG k (s_G S)) /\
+  (forall q k, per_has q k (d_per d) = memP q k (s_P S)).
 
 Lemma Rel_disabled d S c p : Rel d S -> dis_disabled d c p = spec_disabled S c p.
-Proof.
-  intro R. unfold dis_disabled, spec_disabled. specialize (R (canon c)).
-  destruct (dict_get (canon c) d) as [[set|]|]; destruct R as [R1 R2]; rewrite R1; simpl.
-  - apply R2.
-  - reflexivity.
-  - symmetry. apply R2.
-Qed.
-
-Lemma Rel_global d S k : Rel d S -> memG k (s_G S) = true -> dict_get k d = Some None.
-Proof.
-  intros R H. specialize (R k). destruct (dict_get k d) as [[set|]|]; destruct R as [R1 _]; congruence.
-Qed.
-
-Lemma memP_cons q k q0 k0 P : memP q k ((q0, k0) :: P) = (seq_eqb q q0 && seq_eqb k k0) || memP q k P.
-Proof. reflexivity. Qed.
-Lemma memG_cons k k0 G : memG k (k0 :: G) = seq_eqb k k0 || memG k G.
-Proof. reflexivity. Qed.
+Proof. intros [R1 R2]. unfold dis_disabled, spec_disabled. rewrite R1, R2. reflexivity. Qed.
 
 (* the in-memory component of owner_step, which does not depend on the registry list *)
 Definition d_step (d : dis) (o : op) : dis :=
@@ -141,176 +121,85 @@ Proof.
     destruct (conf_has _ conf); reflexivity.
 Qed.
 
-Lemma Rel_other d S k : Rel d S ->
-  match dict_get k d with
-  | Some None => memG k (s_G S) = true /\ forall q, memP q k (s_P S) = false
-  | Some (Some set) => memG k (s_G S) = false /\ forall q, existsb (seq_eqb q) set = memP q k (s_P S)
-  | None => memG k (s_G S) = false /\ forall q, memP q k (s_P S) = false
-  end.
-Proof. intro R. apply R. Qed.
-
-Lemma Rel_disable_plugin d S p c :
-  Rel d S -> spec_disabled S c p = false ->
-  Rel (dis_add d c (Some p)) (SState (s_G S) ((canon p, canon c) :: s_P S)).
+Lemma Rel_step d S o : Rel d S -> Rel (d_step d o) (fst (spec_step has_cmd S o)).
 Proof.
-  intros R Hc. unfold spec_disabled in Hc. apply orb_false_iff in Hc as [HG HP].
-  pose proof (R (canon c)) as Rc.
-  assert (Hother : forall k, seq_eqb k (canon c) = false -> forall q,
-            memP q k ((canon p, canon c) :: s_P S) = memP q k (s_P S)).
-  { intros k Ek q. rewrite memP_cons, Ek, andb_false_r. reflexivity. }
-  intro k. cbn [s_G s_P]. pose proof (R k) as Rk. unfold dis_add.
-  destruct (dict_get (canon c) d) as [[set|]|] eqn:Hget.
-  - destruct Rc as [Rc1 Rc2].
-    assert (Hq : existsb (seq_eqb (canon p)) set = false) by (rewrite Rc2; exact HP).
-    rewrite Hq, get_set.
-    destruct (seq_eqb k (canon c)) eqn:Ek.
-    + apply seq_eqb_eq in Ek. subst k. split; [exact Rc1|]. intro q.
-      rewrite existsb_app, memP_cons, seq_eqb_refl, andb_true_r. simpl. rewrite orb_false_r, Rc2. apply orb_comm.
-    + destruct (dict_get k d) as [[s1|]|]; destruct Rk as [Rk1 Rk2]; (split; [exact Rk1|]); intro q;
-        rewrite (Hother k Ek); apply Rk2.
-  - destruct Rc as [Rc1 _]. congruence.
-  - destruct Rc as [Rc1 Rc2]. rewrite get_set.
-    destruct (seq_eqb k (canon c)) eqn:Ek.
-    + apply seq_eqb_eq in Ek. subst k. split; [exact Rc1|]. intro q.
-      rewrite memP_cons, seq_eqb_refl, andb_true_r, Rc2. simpl. reflexivity.
-    + destruct (dict_get k d) as [[s1|]|]; destruct Rk as [Rk1 Rk2]; (split; [exact Rk1|]); intro q;
-        rewrite (Hother k Ek); apply Rk2.
-Qed.
-
-Lemma Rel_disable_all d S c :
-  Rel d S -> anyP (canon c) (s_P S) = false ->
-  Rel (dis_add d c None) (SState (canon c :: s_G S) (s_P S)).
-Proof.
-  intros R Hany. pose proof (anyP_false _ _ Hany) as HP.
-  intro k. cbn [s_G s_P]. pose proof (R k) as Rk. unfold dis_add. rewrite get_set, memG_cons.
-  destruct (seq_eqb k (canon c)) eqn:Ek.
-  - apply seq_eqb_eq in Ek. subst k. split; [reflexivity|exact HP].
-  - simpl. exact Rk.
-Qed.
-
-Lemma Rel_enable_plugin d S p c :
-  Rel d S ->
-  Rel (match dis_remove d c (Some p) with Ok d' => d' | Raise _ => d end)
-      (fst (spec_step has_cmd S (OEnable (Some p) c))).
-Proof.
-  intro R. cbn [spec_step]. unfold dis_remove. pose proof (R (canon c)) as Rc.
-  destruct (dict_get (canon c) d) as [[set|]|] eqn:Hget.
-  - destruct Rc as [Rc1 Rc2]. rewrite <- (Rc2 (canon p)).
-    destruct (existsb (seq_eqb (canon p)) set) eqn:Hq; [|exact R].
-    cbn [fst]. intro k. cbn [s_G s_P]. rewrite get_set. pose proof (R k) as Rk.
-    destruct (seq_eqb k (canon c)) eqn:Ek.
-    + apply seq_eqb_eq in Ek. subst k. split; [exact Rc1|]. intro q.
-      rewrite mem_remove, memP_remove, seq_eqb_refl, andb_true_r.
-      destruct (seq_eqb q (canon p)); [reflexivity|apply Rc2].
-    + assert (Hk : forall q, memP q k (filter (fun e => negb (seq_eqb (canon p) (fst e) && seq_eqb (canon c) (snd e))) (s_P S))
-                             = memP q k (s_P S)).
-      { intro q. rewrite memP_remove, Ek, andb_false_r. reflexivity. }
-      destruct (dict_get k d) as [[s1|]|]; destruct Rk as [Rk1 Rk2]; (split; [exact Rk1|]); intro q; rewrite Hk; apply Rk2.
-  - destruct Rc as [_ Rc2]. rewrite (Rc2 (canon p)). exact R.
-  - destruct Rc as [_ Rc2]. rewrite (Rc2 (canon p)). exact R.
-Qed.
-
-Lemma Rel_enable_all d S c :
-  Rel d S -> negb (memG (canon c) (s_G S)) && anyP (canon c) (s_P S) = false ->
-  Rel (match dis_remove d c None with Ok d' => d' | Raise _ => d end)
-      (fst (spec_step has_cmd S (OEnable None c))).
-Proof.
-  intros R Hbad. cbn [spec_step]. unfold dis_remove. pose proof (R (canon c)) as Rc.
-  destruct (dict_get (canon c) d) as [[set|]|] eqn:Hget.
-  - (* only per-plugin entries: the operation is refused, yet the entry is deleted *)
-    destruct Rc as [Rc1 Rc2]. rewrite Rc1 in *. simpl in Hbad. cbn [fst].
-    pose proof (anyP_false _ _ Hbad) as HP.
-    intro k. rewrite get_del. pose proof (R k) as Rk.
-    destruct (seq_eqb k (canon c)) eqn:Ek; [|exact Rk].
-    apply seq_eqb_eq in Ek. subst k. split; [exact Rc1|exact HP].
-  - destruct Rc as [Rc1 Rc2]. rewrite Rc1. cbn [fst].
-    intro k. rewrite get_del. cbn [s_G s_P]. pose proof (R k) as Rk. rewrite memG_remove.
-    destruct (seq_eqb k (canon c)) eqn:Ek; [|exact Rk].
-    apply seq_eqb_eq in Ek. subst k. split; [reflexivity|exact Rc2].
-  - destruct Rc as [Rc1 _]. rewrite Rc1. exact R.
-Qed.
-
-Lemma Rel_step d S o :
-  Rel d S -> bad_op S o = false -> Rel (d_step d o) (fst (spec_step has_cmd S o)).
-Proof.
-  intros R Hbad. destruct o as [[p|] c | [p|] c].
-  - cbn [d_step spec_step]. destruct (forbidden c); [exact R|].
+  intro R. pose proof R as [R1 R2]. destruct o as [[p|] c | [p|] c]; cbn [d_step spec_step].
+  - (* disable <plugin> <command> *)
+    destruct (forbidden c); [exact R|].
     rewrite (Rel_disabled d S c p R).
-    destruct (negb (spec_disabled S c p) && has_cmd p c) eqn:Hc; [|exact R].
-    cbn [fst]. apply andb_true_iff in Hc as [Hc _]. apply negb_true_iff in Hc.
-    apply Rel_disable_plugin; assumption.
-  - cbn [d_step spec_step bad_op] in *. destruct (forbidden c); [exact R|].
-    cbn [fst]. apply Rel_disable_all; assumption.
-  - cbn [d_step]. apply Rel_enable_plugin. exact R.
-  - cbn [d_step]. apply Rel_enable_all; assumption.
+    destruct (negb (spec_disabled S c p) && has_cmd p c); [|exact R].
+    cbn [fst]. split; cbn [s_G s_P dis_add d_all d_per]; [exact R1|].
+    intros q k. rewrite memP_cons, <- R2.
+    destruct (dict_get (canon c) (d_per d)) as [set|] eqn:Hget; rewrite per_has_set;
+      (destruct (seq_eqb k (canon c)) eqn:Ek; [|rewrite andb_false_r; reflexivity]);
+      apply seq_eqb_eq in Ek; subst k; rewrite andb_true_r; unfold per_has; rewrite Hget.
+    + apply set_add_mem.
+    + simpl. reflexivity.
+  - (* disable <command> everywhere *)
+    destruct (forbidden c); [exact R|].
+    cbn [fst]. split; cbn [s_G s_P dis_add d_all d_per]; [|exact R2].
+    intro k. unfold memG at 1. rewrite set_add_mem, memG_cons. fold (memG k (d_all d)). rewrite R1. reflexivity.
+  - (* enable <plugin> <command> *)
+    unfold dis_remove. rewrite <- (R2 (canon p) (canon c)). unfold per_has.
+    destruct (dict_get (canon c) (d_per d)) as [set|] eqn:Hget; [|exact R].
+    destruct (existsb (seq_eqb (canon p)) set) eqn:Hq; [|exact R].
+    cbn [fst]. split; cbn [s_G s_P d_all d_per]; [exact R1|].
+    intros q k. rewrite per_has_set, memP_remove, <- R2.
+    destruct (seq_eqb k (canon c)) eqn:Ek; [|rewrite andb_false_r; reflexivity].
+    apply seq_eqb_eq in Ek. subst k. rewrite andb_true_r. unfold set_remove. rewrite mem_remove.
+    unfold per_has. rewrite Hget. reflexivity.
+  - (* enable <command> everywhere *)
+    unfold dis_remove. rewrite (R1 (canon c)).
+    destruct (memG (canon c) (s_G S)); [|exact R].
+    cbn [fst]. split; cbn [s_G s_P d_all d_per]; [|exact R2].
+    intro k. unfold set_remove. rewrite !memG_remove, R1. reflexivity.
 Qed.
 
 Lemma Rel_run ops : forall st S,
-  Rel (o_d st) S -> hist_dom has_cmd S ops = true ->
-  Rel (o_d (owner_run has_cmd st ops)) (spec_run has_cmd S ops).
+  Rel (o_d st) S -> Rel (o_d (owner_run has_cmd st ops)) (spec_run has_cmd S ops).
 Proof.
-  induction ops as [|o ops IH]; intros st S R Hdom; [exact R|].
-  cbn [hist_dom] in Hdom. apply andb_true_iff in Hdom as [Hb Hdom]. apply negb_true_iff in Hb.
+  induction ops as [|o ops IH]; intros st S R; [exact R|].
   unfold owner_run, spec_run. cbn [fold_left].
-  apply IH; [|exact Hdom]. rewrite owner_step_d. apply Rel_step; assumption.
+  apply IH. rewrite owner_step_d. apply Rel_step. exact R.
 Qed.
 
 Definition S0 := SState [] [].
 
-Lemma Rel_init : Rel [] S0.
-Proof. intro k. simpl. split; reflexivity. Qed.
+Lemma Rel_init : Rel dis_empty S0.
+Proof. split; reflexivity. Qed.
 
-Theorem history_disabled_on_domain ops :
-  hist_dom has_cmd S0 ops = true ->
-  forall c p, dis_disabled (o_d (owner_run has_cmd (OState [] []) ops)) c p =
-              spec_disabled (spec_run has_cmd S0 ops) c p.
-Proof.
-  intros Hdom c p. apply Rel_disabled. apply Rel_run; [apply Rel_init|exact Hdom].
-Qed.
+Theorem history_disabled ops c p :
+  dis_disabled (o_d (owner_run has_cmd (OState dis_empty []) ops)) c p =
+  spec_disabled (spec_run has_cmd S0 ops) c p.
+Proof. apply Rel_disabled. apply Rel_run. apply Rel_init. Qed.
 
 (* ... and a command the history left disabled everywhere is never selected by findCallbacksForArgs *)
 Theorem history_never_selected ops cbs defaults important strs x cb :
-  hist_dom has_cmd S0 ops = true ->
   memG (canon x) (s_G (spec_run has_cmd S0 ops)) = true ->
-  let E := Env cbs (o_d (owner_run has_cmd (OState [] []) ops)) defaults important in
+  let E := Env cbs (o_d (owner_run has_cmd (OState dis_empty []) ops)) defaults important in
   In cb (snd (findCallbacksForArgs E strs)) -> last (fst (findCallbacksForArgs E strs)) [] <> x.
 Proof.
-  intros Hdom HG E. apply (disabled_never_selected E strs x cb).
-  simpl. apply (Rel_global _ (spec_run has_cmd S0 ops)); [|exact HG].
-  apply Rel_run; [apply Rel_init|exact Hdom].
+  intros HG E. apply (disabled_never_selected E strs x cb).
+  simpl. destruct (Rel_run ops (OState dis_empty []) S0 Rel_init) as [R1 _]. rewrite R1. exact HG.
 Qed.
 End H.
 
-(* ---- witnesses ---- *)
+(* ---- examples: the histories on which the code before the repair of C14.F24 went wrong ---- *)
 Definition hc_all : str -> str -> bool := fun _ _ => true.
 Definition s_al : str := [65%N; 108%N].   (* "Al" *)
 Definition s_a : str := [97%N].            (* "a" *)
-(* disable Al a ; enable a *)
+(* disable Al a ; enable a (refused) *)
 Definition h_refused_enable : list op := [ODisable (Some s_al) s_a; OEnable None s_a].
 (* disable Al a ; disable a ; enable a *)
 Definition h_overwrite : list op := [ODisable (Some s_al) s_a; ODisable None s_a; OEnable None s_a].
-(* disable a ; enable Al a ; disable Al a (refused) ; enable a ; disable Al a ; enable Al a *)
-Definition h_ok : list op :=
-  [ODisable None s_a; OEnable (Some s_al) s_a; ODisable (Some s_al) s_a; OEnable None s_a;
-   ODisable (Some s_al) s_a].
+(* disable a ; enable Al a (refused) *)
+Definition h_refused_plugin : list op := [ODisable None s_a; OEnable (Some s_al) s_a].
 
-Lemma history_refuted1 :
-  hist_dom hc_all S0 h_refused_enable = false /\
-  snd (owner_step hc_all (owner_run hc_all (OState [] []) [ODisable (Some s_al) s_a]) (OEnable None s_a)) = false /\
-  spec_disabled (spec_run hc_all S0 h_refused_enable) s_a s_al = true /\
-  dis_disabled (o_d (owner_run hc_all (OState [] []) h_refused_enable)) s_a s_al = false.
-Proof. repeat split; vm_compute; reflexivity. Qed.
-
-Lemma history_refuted2 :
-  hist_dom hc_all S0 h_overwrite = false /\
-  spec_disabled (spec_run hc_all S0 h_overwrite) s_a s_al = true /\
-  dis_disabled (o_d (owner_run hc_all (OState [] []) h_overwrite)) s_a s_al = false.
-Proof. repeat split; vm_compute; reflexivity. Qed.
-
-Example history_ok :
-  hist_dom hc_all S0 h_ok = true /\
-  spec_disabled (spec_run hc_all S0 h_ok) s_a s_al = true /\
-  spec_disabled (spec_run hc_all S0 h_ok) s_a [66%N] = false /\
-  hist_dom hc_all S0 [ODisable None s_a; OEnable (Some s_al) s_a] = true /\
-  memG (canon s_a) (s_G (spec_run hc_all S0 [ODisable None s_a; OEnable (Some s_al) s_a])) = true.
+Example history_examples :
+  snd (owner_step hc_all (owner_run hc_all (OState dis_empty []) [ODisable (Some s_al) s_a]) (OEnable None s_a)) = false /\
+  dis_disabled (o_d (owner_run hc_all (OState dis_empty []) h_refused_enable)) s_a s_al = true /\
+  dis_disabled (o_d (owner_run hc_all (OState dis_empty []) h_overwrite)) s_a s_al = true /\
+  dis_disabled (o_d (owner_run hc_all (OState dis_empty []) h_overwrite)) s_a [66%N] = false /\
+  dis_disabled (o_d (owner_run hc_all (OState dis_empty []) h_refused_plugin)) s_a [66%N] = true /\
+  memG (canon s_a) (s_G (spec_run hc_all S0 h_refused_plugin)) = true.
 Proof. repeat split; vm_compute; reflexivity. Qed.
